@@ -64,7 +64,13 @@ pub fn draw_op(r: &mut Rng) -> WOp {
             let len = match r.below(10) {
                 0..=6 => draw_small_len(r).min(3000),
                 7..=8 => draw_small_len(r),
-                _ => r.range(65536, 200_000) as usize,
+                _ => {
+                    if crate::data::small() {
+                        draw_small_len(r)
+                    } else {
+                        r.range(65536, 200_000) as usize
+                    }
+                }
             };
             let data = if r.chance(1, 6) {
                 // equal-bucket / quartile-tie inputs stress the strict '>' of the aggregation backends
